@@ -74,7 +74,8 @@ MANIFEST = {
             'and the scheduler\'s raptor forwarding / backlog / unregister '
             'handling are decided on generated histories of the gated real '
             'scheduler.'
-            '  Exec requests carry pre_exec statements (import, export, print): their output is captured, their exports undone.',
+            '  Exec requests carry pre_exec statements (import, export, print): their output is captured, their exports undone.'
+            "  The master's task service: `_run_task` on service threads while the results go through `_result_cb` on a getter thread, possibly at once - every answered request returns, no bookkeeping is left.",
     'note': 'objects are built with __new__ plus constructor attributes; the '
             'ZMQ queues are the in-memory shim; quiescence is decided '
             'logically (request processes exited, sentinel passed the result '
